@@ -14,6 +14,7 @@ import numpy
 
 from mpv import arr
 
+ANCHORS = ['mpilot/libraries/eems/netcdf/io.py:EEMSRead.execute', 'mpilot/libraries/eems/netcdf/io.py:EEMSWrite.execute', 'mpilot/libraries/eems/netcdf/exceptions.py:InvalidPositiveData.__str__', 'mpilot/libraries/eems/netcdf/exceptions.py:InvalidFuzzyData.__str__']   # repository functions the workload must enter (reported as anchors_reached / anchors_missed)
 LEVEL = "exploration"
 RULE = ("harness-generated template datasets (rank 1-3, extents 1-6, coordinate values and attributes, optional CRS variable with "
         "grid_mapping) x variables of f8/f4/i8/i4/i2 with and without _FillValue and random masks x every DataType x MissingValue "
